@@ -359,7 +359,13 @@ func (d *cborDecDriver[T]) decUint() (ui uint64) {
 }
 
 func (d *cborDecDriver[T]) decLen() int {
-	return int(d.decUint())
+	ui := d.decUint()
+	if ui > math.MaxInt {
+		// int(ui) would be negative: mistaken for an indefinite length (-1),
+		// or for the containerLenNil sentinel (math.MinInt32)
+		halt.errorUint("length overflows int: ", ui)
+	}
+	return int(ui)
 }
 
 func (d *cborDecDriver[T]) decFloat() (f float64, ok bool) {
